@@ -91,6 +91,42 @@ def check_value(s, typename, text, want_ok, want_val, out, ver, label, compare=N
         out.append((ver, label, text, f"encode(decode(x))={back!r} decodes to {again!r}", "roundtrip"))
 
 
+def typed_roundtrip(s, text, out, ver, label, option):
+    """Valid dates / times / durations / binaries: plain decoding gives the normalised text, typed decoding
+    (datetime_types / binary_types) an object that encodes to text denoting the same value."""
+    t = s.elements["v"].type
+    norm = " ".join(text.split())
+    try:        # the document-level API: typed values only on request
+        plain = s.decode(f"<v>{esc(text)}</v>")
+        obj = docobj = s.decode(f"<v>{esc(text)}</v>", **{option: True})
+    except Exception as e:      # noqa: BLE001
+        out.append((ver, label, text, f"decode raised {type(e).__name__}: {e}"[:160], "raise"))
+        return
+    if norm == "" and plain is None:
+        return      # an empty element (an empty binary value) is decoded as None
+    canon = (lambda x: x.upper()) if label == "xs:hexBinary" else \
+        (lambda x: x.replace(" ", "")) if label == "xs:base64Binary" else (lambda x: x)
+    if plain != norm and plain != canon(norm):       # the canonical form counts as normalised text
+        out.append((ver, label, text, f"plain decoding gave {plain!r}, the normalised text is {norm!r}", "value"))
+        return
+    if isinstance(obj, str) or isinstance(docobj, str):
+        out.append((ver, label, text, f"{option}=True decoded a str ({obj!r} / {docobj!r})", "value"))
+        return
+    try:
+        back = t.encode(obj)
+        again = s.decode(f"<v>{esc(back)}</v>", **{option: True})
+        ok = t.is_valid(back)
+    except Exception as e:      # noqa: BLE001
+        out.append((ver, label, text, f"encode / decode of the typed value raised {type(e).__name__}: {e}"[:160],
+                    "raise"))
+        return
+    if back == "" and again is None:
+        return      # the empty value again
+    if not ok or again != obj or docobj != obj:
+        out.append((ver, label, text, f"typed value {obj!r} encodes to {back!r} (valid={ok}) which decodes to "
+                    f"{again!r}; document-level value {docobj!r}", "roundtrip"))
+
+
 def judge_words(job):
     recs, ver = job
     out = []
@@ -243,6 +279,8 @@ def judge_tables(job):
         for r in rows:
             n += 1
             check_value(s, "time", f'{r["h"]}:{r["mi"]}:{r["s"]}{r["z"]}', r["ok"], None, out, ver, "xs:time")
+            if r["ok"]:
+                typed_roundtrip(s, f' {r["h"]}:{r["mi"]}:{r["s"]}{r["z"]} ', out, ver, "xs:time", "datetime_types")
     elif table == "durations":
         s, err = typed_schema(ver, '<xs:element name="v" type="xs:duration"/>', "duration")
         for r in rows:
@@ -250,6 +288,8 @@ def judge_tables(job):
                     + ("T" if r["t"] else "") + "".join(a + u for a, u in r["time"]))
             n += 1
             check_value(s, "duration", text, r["ok"], None, out, ver, "xs:duration")
+            if r["ok"]:
+                typed_roundtrip(s, text, out, ver, "xs:duration", "datetime_types")
     elif table in ("hex", "base64"):
         typ = "hexBinary" if table == "hex" else "base64Binary"
         chars = {"0": "0", "a": "a", "F": "F", "g": "g", "s": " ", "B": "B", "E": "E", "Q": "Q", "=": "=", "x": "!"}
@@ -257,6 +297,8 @@ def judge_tables(job):
         for r in rows:
             n += 1
             check_value(s, typ, "".join(chars[c] for c in r["w"]), r["ok"], None, out, ver, "xs:" + typ)
+            if r["ok"]:
+                typed_roundtrip(s, "".join(chars[c] for c in r["w"]), out, ver, "xs:" + typ, "binary_types")
     else:       # dates
         s, err = typed_schema(ver, '<xs:element name="v" type="xs:date"/>', "date")
         for r in rows:
